@@ -136,6 +136,18 @@ func (p *pg) genC08() (Config, Plan) {
 		}
 		plan.Ops = append(plan.Ops, op)
 	}
+	if p.r.Intn(3) == 0 {
+		// value history patterns on one key with a recurring value v: v, delete, v /
+		// v, v / v, other, v - each followed by a Get (and sometimes a reopen)
+		v := OpSpec{Kind: "set", N: []int{8, 30}[p.r.Intn(2)], Var: p.r.Intn(5), K: 2}
+		mid := []OpSpec{{Kind: "set", N: -1, Var: v.Var}, v, {Kind: "set", N: 1 + p.r.Intn(40), Var: v.Var}}[p.r.Intn(3)]
+		pat := []OpSpec{v, mid, v, {Kind: "getstable", Var: v.Var}}
+		if p.r.Intn(3) == 0 {
+			pat = append(pat, OpSpec{Kind: "reopen"}, OpSpec{Kind: "getstable", Var: v.Var})
+		}
+		i := p.r.Intn(len(plan.Ops) + 1)
+		plan.Ops = append(plan.Ops[:i], append(pat, plan.Ops[i:]...)...)
+	}
 	nc := p.r.Pick([]int{30, 40, 20, 10})
 	for k := 0; k < nc; k++ {
 		for tries := 0; tries < 20; tries++ {
